@@ -194,7 +194,7 @@ func RunC17(id, tier string, seed int64) int {
 	if err != nil {
 		return fail(2, "INCONCLUSIVE: "+err.Error())
 	}
-	sim := SimSpec{Module: "MCIavl", Spec: "SpecSim", K: 4, V: 2, IVs: "{0, 5}", D: 12, Workers: 4, Num: tierNum(tier, 4, 120),
+	sim := SimSpec{Module: "MCIavl", Spec: "SpecSim", K: 4, V: 2, IVs: "{0, 5}", D: 12, Workers: 4, Num: tierNum(tier, 4, 30),
 		Classes: []string{"set", "set", "set", "rm", "rmhit", "save", "save", "save", "rollback", "reopen", "reopen", "load", "lvfo", "delto", "delto", "savecs"}, Invs: []string{"InvContents"}}
 	behs, gen, err := GenerateBehaviours(sim, seed)
 	if err != nil {
@@ -213,7 +213,7 @@ func RunC17(id, tier string, seed int64) int {
 	transitions += genP
 	var behsP []*model.Behaviour
 	for _, b := range candP {
-		if len(behsP) < tierNum(tier, 10, 120) && prunesSharedVersion(b) {
+		if len(behsP) < tierNum(tier, 10, 40) && prunesSharedVersion(b) {
 			behsP = append(behsP, b)
 		}
 	}
